@@ -33,6 +33,7 @@ def one(d):
     finally:
         shutil.rmtree(tmp, ignore_errors=True)
 
+WRITE_META = '--write-meta' in sys.argv
 dirs = [d for d in sys.argv[1:] if os.path.exists(os.path.join(d, 'patch.diff'))]
 with ThreadPoolExecutor(int(os.environ.get("JOBS", "6"))) as ex:
     for d, own, res, err in ex.map(one, dirs):
@@ -43,7 +44,26 @@ with ThreadPoolExecutor(int(os.environ.get("JOBS", "6"))) as ex:
         verdict = {0: 'MISSED', 1: 'DETECTED', 2: 'EXIT2'}.get(rc, f'rc={rc}')
         others = [f'{p}:{ {1:"V",2:"E2"}[r[0]] }' for p, r in res.items() if p != own and r[0] != 0]
         rules = sorted({l.split()[1] for l in lines if l.startswith('FAIL')})
-        print(f'{name}: own={verdict} {" ".join(rules)[:120]} others=[{" ".join(others)}]')
+        print(f'{name}: own={verdict} {" ".join(rules)[:120]} others=[{" ".join(others)}]', flush=True)
+        if WRITE_META:
+            import json
+            mp = d + '/meta.json'
+            meta = json.load(open(mp)) if os.path.exists(mp) else {}
+            sid = os.path.basename(d)
+            meta['check_cmd'] = f'git -C /repo apply seeded/{sid}/patch.diff && ./check {own} --no-evidence; git -C /repo checkout -- .'
+            meta['check_exit'] = rc
+            meta['check_result'] = {0: 'MISSED (check silent)', 1: 'DETECTED (VIOLATION)',
+                                    2: 'NOT-DECIDED (ANALYSIS-ERROR, exit 2)'}.get(rc, str(rc))
+            meta['fired'] = [l.split(' at ')[0][5:] for l in lines if l.startswith('FAIL')][:12]
+            meta.pop('analysis_error', None)
+            if rc == 2 and lines:
+                meta['analysis_error'] = lines[0][:300]
+            meta.pop('detected_by_other_properties', None)
+            oth = {p: sorted({l.split()[1] for l in r[1] if l.startswith('FAIL')})[:4] for p, r in res.items()
+                   if p != own and r[0] == 1}
+            if oth:
+                meta['detected_by_other_properties'] = oth
+            json.dump(meta, open(mp, 'w'), indent=1); open(mp, 'a').write('\n')
         if rc == 2:
             print('      ' + (lines[0][:260] if lines else ''))
         for p, r in res.items():
